@@ -249,3 +249,38 @@ theorem cinv_runC (arg : Nat → Nat) (s : CSt) (sched : List Nat) (hI : CInv ar
     rw [hf]; exact cinv_runF arg s f hI
 
 end TIV.C15.Conc
+
+/-! the toggle / reader race -/
+namespace TIV.C15.Race
+open TIV.C15
+
+def RPC.inCS : RPC → Bool
+  | .locked | .miss | .got _ | .rel => true
+  | _ => false
+
+/-- invariant of the canonical order `setFlag; lock; clear; unlock` (toggle towards `n`) -/
+def RInv (n : Bool) (s : RSt) : Prop :=
+  s.pc ≤ 4 ∧
+  (s.owner = some .T ↔ (s.pc = 2 ∨ s.pc = 3)) ∧
+  (s.owner = some .R ↔ s.rpc.inCS = true) ∧
+  (s.flag = if s.pc = 0 then !n else n) ∧
+  (match s.rpc with | .got f => f = s.flag ∨ s.pc = 1 | _ => True) ∧
+  (match s.cache with | some c => c = s.flag ∨ s.pc = 1 ∨ s.pc = 2 | none => True)
+
+theorem rinv_init (n : Bool) (c : Option Bool) (hc : c = none ∨ c = some (!n)) : RInv n (RSt.init n c) := by
+  rcases hc with hc | hc <;> subst hc <;> simp [RInv, RSt.init, RPC.inCS]
+
+theorem rinv_step (n : Bool) (s : RSt) (w : Who) (h : RInv n s) : RInv n (rstep canonical n s w) := by
+  obtain ⟨flag, cache, owner, pc, rpc, rval⟩ := s
+  have hpc : pc = 0 ∨ pc = 1 ∨ pc = 2 ∨ pc = 3 ∨ pc = 4 := by have := h.1; simp at this; omega
+  rcases hpc with e | e | e | e | e <;> subst e <;> cases w <;> cases rpc <;> cases cache <;> rcases owner with _ | (_ | _) <;>
+    simp_all [RInv, rstep, canonical, RPC.inCS]
+
+theorem rinv_run (n : Bool) (s : RSt) (sched : List Who) (h : RInv n s) :
+    RInv n (rrun canonical n s sched) := by
+  induction sched generalizing s with
+  | nil => exact h
+  | cons w ws ih => exact ih _ (rinv_step n s w h)
+
+end TIV.C15.Race
+
